@@ -47,27 +47,29 @@ Theorem cssparse_nesting : forall d inline n tr, parse_run n (new_parser d inlin
 Proof. exact cssparse_nesting_proof. Qed.
 Print Assumptions cssparse_nesting.
 
-(* C08 (partial): on every input, in both modes and for every number of calls, every token reported through data or
+(* C08: on every input, in both modes and for every number of calls, every token reported through data or
    Values() is (rep_tok) a token the lexer returns on the input - same type, same bytes; by lexer_tok_in_lex an
    element of css_lex d - or one of the synthesised forms: the single space, the empty token of a ruleset, the '}'
    that ended the previous unit, ErrorToken/nil, a lower-cased copy, the IE-hack token ('*' glued to the following
    lexer token), or, for a custom property, a value that is an exact slice of the source text.
-   MISSING: the source order of the Values() of ErrorGrammar units (for all other units cssparse_source_order below). *)
-Theorem cssparse_conservation_partial : forall d inline n tr, parse_run n (new_parser d inline) = POk tr ->
+   The source order of these tokens, and that none is reported twice, is cssparse_source_order below. *)
+Theorem cssparse_conservation : forall d inline n tr, parse_run n (new_parser d inline) = POk tr ->
   Forall (fun r => reported_ok d (snd r)) tr.
 Proof. exact cssparse_conservation_proof. Qed.
-Print Assumptions cssparse_conservation_partial.
+Print Assumptions cssparse_conservation.
 
 (* C08 (source order): on every input, in both modes and for every number of calls, the tokens reported along the
-   run - data of every unit but ErrorGrammar, then Values() of AtRule / BeginAtRule / BeginRuleset / Declaration /
-   CustomProperty units (reported, Order.v) - form a chain: dropping the synthesised ones (space, empty, the '}' that
+   run - for every unit its data, then its Values() (Next clears the buffer first, so they are the unit's own; reported,
+   Order.v) - form a chain: dropping the synthesised ones (space, empty, the '}' that
    ended the previous unit, ErrorToken/nil), each stems from an interval [a, b) of the input (src): a lexer token is
    the token the lexer returns at position a and ends at b, a lower-cased copy has the interval of its original, a
    custom-property value is exactly the bytes [a, b), and the IE-hack token spans its '*' and the token glued to it
    (the known finding conservation-iehack, stated as the exact exception S_glued); these intervals are pairwise
    disjoint and increase along the run.  So the reported source tokens are a subsequence of the lexer's tokens in
-   source order and none is reported twice.  ErrorGrammar units are left out: their data repeats a token of their
-   Values(), and at the end of the input their Values() are those of an earlier unit. *)
+   source order and none is reported twice.  The exact exception: of an ErrorGrammar unit only Values() are taken -
+   when a declaration is in error (erroneous input only) parseDeclarationError sets data to the offending token and
+   also appends it to Values(), so data repeats a token of Values(); for the other ErrorGrammar units data is
+   ErrorToken/nil, the empty token of a ruleset, or the name of the at-rule / custom property that is in error. *)
 Theorem cssparse_source_order : forall d inline n tr, parse_run n (new_parser d inline) = POk tr ->
   chain d 0 (concat (map reported tr)) (len d).
 Proof. exact cssparse_source_order_proof. Qed.
